@@ -448,6 +448,15 @@ class Mailbox:
                     # there are no other commands running
                     #
                     return True
+
+                # A STORE that is executing may be setting `\Deleted` right
+                # now: what there is to expunge is not known until it is done.
+                #
+                if any(
+                    x.command == IMAPCommand.STORE
+                    for x in self.executing_tasks
+                ):
+                    return True
                 return False
 
             case IMAPCommand.COPY:
